@@ -175,6 +175,10 @@ def case(chk, i):
                 used_in_c = any(direct_container(rr, {bn}) for rr in named if rr.rust_name not in bnames and rr.rust_name not in onames)
                 if used_in_c and not re.search(r"[:\s\[<(]%s[\s;,>\])]" % re.escape(bn), text.split(raw[-1])[-1] if raw else text):
                     problems.append("blocklisted %s is used by value in C but never named in the bindings" % bn)
+                    aliases = [tn for tn, tt in model.typedefs if isinstance(G.resolve(tt), G.RecordRef) and G.resolve(tt).rec.rust_name == bn]
+                    if mode == "hide-annotation" and aliases:
+                        # recorded: the `hide` annotation on a record also swallows `typedef struct R T;` — uses keep naming T, which nobody defines
+                        known_sig = "c10.hide-annotation-hides-typedef-aliases"
             for on in onames:
                 its = [it for it in defined.get(on, []) if it["kind"] in ("struct", "union")]
                 if not its:
